@@ -5,6 +5,9 @@
 EXTENDS Shutdown, Json, TLC
 
 MCKindOrder == <<"http", "https", "tcp", "tcp+sni", "grpc", "https+tcp+sni">>
+\* the design treats all kinds alike (only the deviation singles out grpc): configurations of three
+\* listeners are explored over four kinds, which covers every 3-subset of the six up to renaming
+MCKindOrder4 == <<"http", "tcp", "grpc", "https+tcp+sni">>
 MCDurOrder == <<"short", "long", "inf">>
 \* short < W < long; inf never ends
 MCDur == [d \in {"short", "long", "inf"} |-> CASE d = "short" -> 1 [] d = "long" -> W + 2 [] d = "inf" -> -1]
